@@ -13,6 +13,8 @@ import (
 	"fmt"
 	"net/http"
 	"net/http/httptest"
+	"os"
+	"path/filepath"
 	"sort"
 	"strconv"
 	"strings"
@@ -99,6 +101,7 @@ type c20Scenario struct {
 	reader   string     // ip to read, "" = none
 	tickTo   int64      // >0: a clock thread moves virtual time to start+tickTo (ns)
 	startOff int64      // virtual now at start relative to limiter start (ns)
+	logFile  bool       // the limiter writes its interval log (dump at every roll-over)
 }
 
 const c20Interval = int64(10 * time.Second)
@@ -129,7 +132,14 @@ func TestVerifC20(t *testing.T) {
 		{name: "mixed-ips", max: 1, clients: [][]string{{"1.2.3.4", "xff:1.2.3.4"}, {"2001:db8::1", "1.2.3.4"}, {"10.1.1.1", "10.1.1.1"}}, reader: "10.1.1.1"},
 		{name: "boundary-tick", max: 1, clients: [][]string{{"1.2.3.4", "1.2.3.4"}, {"1.2.3.4"}}, reader: "1.2.3.4", tickTo: c20Interval + 1, startOff: c20Interval},
 		{name: "after-boundary", max: 1, clients: [][]string{{"1.2.3.4"}, {"1.2.3.4"}, {"5.6.7.8"}}, reader: "5.6.7.8", startOff: c20Interval + 1},
+		{name: "after-boundary-logfile", max: 3, clients: [][]string{{"1.2.3.4", "1.2.3.4"}, {"1.2.3.4"}, {"5.6.7.8"}}, reader: "1.2.3.4", startOff: c20Interval + 1, logFile: true},
+		{name: "boundary-tick-logfile", max: 2, clients: [][]string{{"1.2.3.4", "1.2.3.4"}, {"1.2.3.4"}}, reader: "1.2.3.4", tickTo: c20Interval + 1, startOff: c20Interval, logFile: true},
 	}
+	logDir, err := os.MkdirTemp(os.Getenv("VERIF_SCRATCH"), "c20log")
+	if err != nil {
+		t.Fatalf("scratch: %v", err)
+	}
+	defer os.RemoveAll(logDir)
 	bound := 2
 	if !vh.Quick() {
 		bound = 3
@@ -150,7 +160,11 @@ func TestVerifC20(t *testing.T) {
 		var ops []opRec
 		body := func(s *vrt.Sched) {
 			ops = ops[:0]
-			lim, err := NewIPRequestLimiter(sc.max, time.Duration(c20Interval), time.Unix(0, c20T0).UTC(), "10.0.0.0/8", "")
+			logFile := ""
+			if sc.logFile {
+				logFile = filepath.Join(logDir, "limiter.json")
+			}
+			lim, err := NewIPRequestLimiter(sc.max, time.Duration(c20Interval), time.Unix(0, c20T0).UTC(), "10.0.0.0/8", logFile)
 			if err != nil {
 				s.Fail("setup", err.Error())
 				return
